@@ -672,6 +672,20 @@ theorem C08_tryNext_advances_partial (N : List Name) (hN : N.Pairwise (· < ·))
     (r.2.2 = .all ∨ r.2.2 = .newchoice) ∧ ∃ c' cs', r.1 = .mult .or v c' c1 k cs' ∧ c ≤ c' ∧ c' ≤ (p : Int) :=
   tryNext_or_advances N hN f v c c1 k cs es r o p chp h hnm hfr htidy hchk hsm hk hcp hp hpa hnd hout
 
+/-- **The digit restarts at its first value** (partial: as above, leaf hypotheses on the alternative at `p` only; nothing
+held below the OrList — the state NOMORE leaves, `C08_nomore_exhausted`/`Idle`).  The re-acceptance after a NEWCHOICE of
+an earlier digit (`MultList::tryNext`'s forward loop → `OrList::acceptChoice` on an exhausted OrList, `choice = LISTEND`)
+scans from `choice1` — by `C08_choiceCount_counts` the first alternative that counts: with an alternative `p ≥ choice1`
+that counts it accepts, and the new `choice` lies in `[choice1, p]`. -/
+theorem C08_reaccept_restarts_partial (N : List Name) (hN : N.Pairwise (· < ·)) (f : Nat) (v : MT) (c1 : Int) (k : Nat)
+    (cs : List ST) (es : Ents) (r : ST × Ents × Bool) (o : Name → Nat) (p : Nat) (chp : ST)
+    (h : acceptChoice f (.mult .or v listEnd c1 k cs) es = .ok r) (hnm : names es = N)
+    (hfr : FrL o cs es) (h0 : holdsL cs = []) (htidy : TidyL cs)
+    (hc1 : 0 ≤ c1) (hcp : c1 ≤ (p : Int)) (hp : cs[p]? = some chp) (hpa : PA N chp) (hnd : (lvS chp).Nodup)
+    (hout : ∀ n ∈ lvS chp, o n = 0) :
+    r.2.2 = true ∧ ∃ (j : Nat) (cs' : List ST), r.1 = .mult .or v (j : Int) c1 k cs' ∧ c1 ≤ (j : Int) ∧ j ≤ p :=
+  reaccept_restarts N hN f v c1 k cs es r o p chp h hnm hfr h0 htidy hc1 hcp hp hpa hnd hout
+
 /-- **`choiceCount` counts, `choice1` is the first alternative that counts** — what the `choiceCount == 1` shortcut of
 `OrList::tryNext` relies on.  Every well-formed OrList (any nesting below it) in its reset state, every request:
 after `OrList::matchORs`, `choiceCount` is the number of alternatives whose `viable` reached MATCHSOME, `viable` reaches
